@@ -276,7 +276,7 @@ func (g *Grammar) ComputeGotoItemNoneRec(IC *item.ItemCloure) {
 		} // if Dot == len, just return
 	}
 
-	for _, goItem := range IC.GoToMap {
+	for _, goItem := range IC.GoTo {
 		IcTemp := goItem.ICref
 		var index_goto int = -1
 		if exist_index, exist := g.LR0.CheckIsExist(IcTemp); exist {
